@@ -32,7 +32,7 @@ ASSUMPTIONS = [
     "list sources cannot carry a fault; the baseline then uses the one-shot sync iterator flavour",
 ]
 
-SRC_FL = ["list", "seq", "iter", "agen", "aclass", "aplain"]
+SRC_FL = ["list", "seq", "iter", "agen", "aclass", "aplain", "tuple", "tuplesub"]
 FN_FL = ["def", "async", "partial", "obj", "objaw"]
 ASYNC_SRC = {"agen", "aclass", "aplain"}
 ALL = ITER_TOOLS + AGG_TOOLS
@@ -77,12 +77,12 @@ def apply_assign(case, assign):
     nsrc = len(c["srcs"])
     for i, s in enumerate(c["srcs"]):
         fl = assign["src"][i]
-        if fl == "list" and s.get("fault"):
+        if fl in ("list", "tuple", "tuplesub") and s.get("fault"):
             fl = "iter"
         s["fl"] = fl
     if TOOLS[c["tool"]].outer:
         fl = assign["src"][nsrc]
-        if fl == "list" and c["params"]["outer"].get("fault"):
+        if fl in ("list", "tuple", "tuplesub") and c["params"]["outer"].get("fault"):
             fl = "iter"
         c["params"]["outer"]["fl"] = fl
     for (role, spec), fl in zip(sorted(c["fns"].items()), assign["fn"]):
@@ -144,7 +144,7 @@ def check(case):
         check_one(c, base_view)
         fls = assign["src"] + assign["fn"]
         has_async = any(f in ASYNC_SRC or f in ("async", "partial", "obj", "objaw") for f in fls)
-        has_sync = any(f in ("list", "seq", "iter", "def") for f in fls)
+        has_sync = any(f in ("list", "seq", "iter", "def", "tuple", "tuplesub") for f in fls)
         if (has_async and has_sync) or any(f in ("partial", "obj", "objaw") for f in fls):
             nontrivial.append("|".join(fls))
     return {"evaluations": len(work["assigns"]), "nontrivial": nontrivial,
